@@ -142,7 +142,9 @@ template <class S> static void extremes(const std::vector<const SolSpec*>& sols)
     CAP.begin(); masa_init<S>("x", s->name); CAP.end();
     for (auto& e : api()) {
       if (e.kind == KK) {
-        for (int k : {-3, -2, -1, 0, 1, 2, 7, 20, 25}) { op<S>("masa_eval_" + e.id + "(" + std::to_string(k) + ") on " + s->name + " <" + P + ">"); S a[4] = {0, 0, 0, 0}; CAP.begin(); call_ev<S>(e, a, k, nullptr); CAP.end(); LOG.count("extreme_calls", 1); }
+        std::vector<int> orders; for (int k = -5; k <= 70; k++) orders.push_back(k);
+        for (int k : {100, 101, 170, 171, 172, 200}) orders.push_back(k);
+        for (int k : orders) { op<S>("masa_eval_" + e.id + "(" + std::to_string(k) + ") on " + s->name + " <" + P + ">"); S a[4] = {0, 0, 0, 0}; CAP.begin(); call_ev<S>(e, a, k, nullptr); CAP.end(); LOG.count("extreme_calls", 1); }
         continue;
       }
       if (!s->prov.count(e.id)) continue;
